@@ -147,7 +147,7 @@ func (p *c10) history(res *fw.Result, scen *gen.Scenario, seed int64, inject boo
 	}
 	var out []c10out
 	record := func(rec *drive.CallRecord) {
-		o := c10out{session: string(rec.SessionAfter), events: string(bytes.Join(rec.EventsJSON, []byte("\n"))), segments: string(bytes.Join(rec.SegmentsJSON, []byte("\n")))}
+		o := c10out{session: normKnownNondet(string(rec.SessionAfter)), events: normKnownNondet(string(bytes.Join(rec.EventsJSON, []byte("\n")))), segments: string(bytes.Join(rec.SegmentsJSON, []byte("\n")))}
 		switch {
 		case rec.Kind == "unreadable":
 			o.err = "unreadable"
@@ -461,6 +461,23 @@ func (p *c10) faults(res *fw.Result, scen *gen.Scenario, rn *drive.Runner, next 
 		return
 	}
 	r := fw.NewRand(1, "C10faults", len(sessionJSON))
+	// what the same resume does WITHOUT any fault (on a twin restored against the original assets): a Go error that
+	// also occurs there (e.g. a resthook payload that evaluates to invalid JSON) is not caused by the fault
+	cleanGoErr := ""
+	if twin, err := rn.Eng.ReadSession(rn.SA, sessionJSON, func(assets.Reference, error) {}); err == nil {
+		nd, _ := json.Marshal(next)
+		if rs, err := resumesRead(rn.SA, nd); err == nil {
+			func() {
+				defer func() { recover() }()
+				if _, e := twin.Resume(rs); e != nil {
+					var ee *engine.Error
+					if !errors.As(e, &ee) {
+						cleanGoErr = errClass(e.Error())
+					}
+				}
+			}()
+		}
+	}
 	for _, kind := range faultKinds {
 		rn.Src.Restore(st)
 		eng := rn.Eng
@@ -594,6 +611,10 @@ func (p *c10) faults(res *fw.Result, scen *gen.Scenario, rn *drive.Runner, next 
 			continue
 		}
 		if err2 != nil && !isReject {
+			if cleanGoErr != "" && errClass(err2.Error()) == cleanGoErr {
+				res.Count("fault_goerror_also_without_fault", 1)
+				continue
+			}
 			if kind == "exits-rekeyed" {
 				res.Count("fault_goerror_changed_but_resumable."+kind, 1) // outside the statement's list: observed, not judged
 				continue
